@@ -204,8 +204,14 @@ def r5_4(cx):
         ok = len(st) == 1 and is_call(st[0][1], 'make_ioslice')
         if ok:
             ln = st[0][1].args[1].strip()
-            ok = any(n.kind == 'binop' and n.op == 'Sub' and is_call(n.b, 'Ord::min') and any(a.strip().kind == 'param' for a in n.b.strip().args) for n in ln.walk()) or \
-                (ln.kind == 'phi' and any(a.strip().kind == 'binop' and a.strip().op == 'Sub' and is_call(a.strip().b, 'Ord::min') for a in ln.args))
+            def _clamped_sub(n):
+                n = n.strip()
+                if n.kind == 'binop' and n.op == 'Sub':
+                    return is_call(n.b, 'Ord::min') and any(a.strip().kind == 'param' for a in n.b.strip().args)
+                if n.kind == 'call' and n.op.endswith('saturating_sub') and len(n.args) == 2:   # same value once the count is clamped
+                    return is_call(n.args[1], 'Ord::min') and any(a.strip().kind == 'param' for a in n.args[1].strip().args)
+                return False
+            ok = any(_clamped_sub(n) for n in ln.walk()) or (ln.kind == 'phi' and any(_clamped_sub(a) for a in ln.args))
         cx.check(ok, 'shrink:' + nm, f, None, 'new length = len - count.min(len)', fail_detail='%s does not clamp its count to the length' % nm)
 
 
@@ -361,7 +367,8 @@ def r5_8(cx):
     nw = [cs for cs in mr.calls(AN + '::new')]
     okm = len(nw) == 1 and nw[0].arg(1).has_call('Clone>::clone') and any(a.strip().kind == 'param' for a in nw[0].arg(1).walk())
     # (Anchor::is_same_chunk is read through: it is always inlined, see normalize.ALWAYS_INLINE)
-    same = [cs for cs in mr.calls('Arc<T, A>::ptr_eq')] or [cs for cs in mr.calls('ptr_eq')]
+    fam = [mr] + list(prog.closures_of(mr))
+    same = [cs for g in fam for cs in g.calls() if cs.callee.endswith('ptr_eq')]
     cx.check(okm and len(same) == 1, 'anchor-of-chunk', mr, None, 'a new Anchor clones the Arc of the chunk; an existing one is reused only if is_same_chunk',
              fail_detail='merge_ref_or_create does not tie the anchor to the allocating chunk')
     # an anchor's chunk is sticky: set at construction, never re-pointed (a parked zero-count anchor keeps the
